@@ -56,6 +56,8 @@ def check(rng, deep):
                 ('twoasset', m.twoasset, m.TWO_CALIB, [{'rb': 0.002 * nr.normal(size=T)}, {'ra': 0.002 * np.ones(T), 'tax': np.r_[0.0, 0.01, np.zeros(T - 2)]}])]
     # a borrowing limit that is loosened below the bottom of the grid (policies leave the grid at the bottom: the lottery extrapolates) and tightened above it
     fixtures.append(('loose', m.loose, m.LOOSE_CALIB, [{'blim': np.r_[0.0, -0.3, -0.3, -0.1, 0.0, 0.0]}, {'blim': np.r_[0.0, 0.2, 0.0, 0.0, 0.0, 0.0], 'r': 0.002 * np.ones(T)}]))
+    # three independent exogenous dimensions (expectations / forward steps act on the first, second and third axis in turn)
+    fixtures.append(('multi3', m.multi3, m.multi3_calib(), [{'r': 0.002 * nr.normal(size=T)}, {'shift_e': 0.02 * 0.6 ** np.arange(T), 'shift_q': np.r_[0.0, 0.03, 0.01, 0.0, 0.0, 0.0]}, {'shift_z': 0.02 * np.ones(T)}]))
     sss = {}
     for name, blk, calib, shock_list in fixtures:
         ss = blk.steady_state(calib)
@@ -63,7 +65,7 @@ def check(rng, deep):
         for sh in shock_list:
             n += 1
             compare(name, blk, ss, sh, T, out)
-        if deep:       # calibrations in a box around the fixture, random shock paths
+        if deep and name != 'multi3':       # calibrations in a box around the fixture, random shock paths
             for _ in range(3):
                 c2 = H.perturb(calib, rng)
                 try:
